@@ -14,8 +14,16 @@ if '--budget' in sys.argv:
     budget = sys.argv[sys.argv.index('--budget') + 1]
 
 missed = []
+match = None
+
+if '--match' in sys.argv:
+    import re
+    match = re.compile(sys.argv[sys.argv.index('--match') + 1])
 
 for d in sorted(glob.glob(os.path.join(HERE, 'seeded', '*'))):
+    if match is not None and not match.search(os.path.basename(d)):
+        continue
+
     mp = os.path.join(d, 'meta.json')
     meta = json.load(open(mp))
     props = sorted(meta.get('detected_by', {})) or [meta['breaks_property']]
@@ -28,7 +36,15 @@ for d in sorted(glob.glob(os.path.join(HERE, 'seeded', '*'))):
                         '--budget', budget] + props,
                        stdout=subprocess.PIPE, stderr=subprocess.STDOUT)
     txt = r.stdout.decode()
-    res = json.loads(txt[txt.index('{'):])
+
+    try:
+        res = json.loads(txt[txt.index('{'):])
+    except ValueError:
+        print('%-10s could not be re-run: %s' % (os.path.basename(d),
+                                                 txt[-200:]))
+        missed.append(os.path.basename(d))
+        continue
+
     ok = res.get('tests_pass') and res.get('demo_clean_rc') == 0 and \
         res.get('demo_changed_rc', 0) != 0
     meta['detected_by'] = {p: {'exit': v['rc'], 'violations': v['violations']}
